@@ -333,13 +333,17 @@ func checkC03(c *ev.Ctx) {
 		c.Count("gen_matched_literals", int64(st.MatchedLits))
 		judge(validStream{ID: fmt.Sprintf("gen%d", i), Src: "refenc", Bytes: stream, Content: content, Decl: decl, Feat: feat}, i)
 	})
-	// far distances: every distance slot a 16 MiB (thorough: 128 MiB) window can use
-	{
+	// far distances: every distance slot a 16 MiB (thorough: 128 MiB) window can use, with three
+	// kinds of filler between the probes (LZMA chunks, uncompressed chunks, both)
+	for fi, fill := range []string{"rep", "raw", "mixed"} {
 		maxD, code := int64(1<<24), byte(26)
 		if thorough(c) {
 			maxD, code = 1<<27, 32
+			if fi > 0 {
+				maxD, code = 1<<26, 30
+			}
 		}
-		l2, content, probes := ref.GenFarLZMA2(prng.New(c.Seed, 33), maxD)
+		l2, content, probes := ref.GenFarLZMA2Fill(prng.New(c.Seed, 33, uint64(fi)), maxD, fill)
 		xzs := ref.BuildXZ(ref.CheckCRC32, []ref.BlockSpec{{LZMA2: l2, Content: content, DictCode: code}})
 		o, _, err := ref.DecodeXZ(xzs, 0)
 		ok := err == nil && bytes.Equal(o, content)
@@ -349,10 +353,10 @@ func checkC03(c *ev.Ctx) {
 		}
 		if !ok {
 			c.Count("generator_rejected", 1)
-			c.Inconclusive(fmt.Sprintf("far-distance stream not accepted by the references: %v", err))
+			c.Inconclusive(fmt.Sprintf("far-distance stream (%s filler) not accepted by the references: %v", fill, err))
 		} else {
-			streams = append(streams, validStream{ID: "far", Src: "refenc", Bytes: xzs, Content: content, Decl: 0, Feat: fmt.Sprintf("far-distances up to %d (%d probes)", maxD, probes)})
-			c.Set("far_distance_probes", probes)
+			streams = append(streams, validStream{ID: "far-" + fill, Src: "refenc", Bytes: xzs, Content: content, Decl: 0, Feat: fmt.Sprintf("far-distances up to %d (%d probes), %s filler", maxD, probes, fill)})
+			c.Set("far_distance_probes_"+fill, probes)
 		}
 	}
 	c.MinEvals(int64(len(names)))
